@@ -57,6 +57,8 @@ TABLE = {
     ('as4_path', 'truncated-segment'): DISCARD, ('as4_path', 'bad-type'): DISCARD, ('as4_path', 'flags'): TAW,
     ('as4_aggregator', 'len-'): DISCARD, ('as4_aggregator', 'len+'): DISCARD, ('as4_aggregator', 'flags'): TAW,
     ('as_path', 'other-width'): TAW, ('aggregator', 'other-width'): DISCARD,
+    # RFC 7311 3.2: a malformed AIGP is treated as an unrecognised non-transitive attribute (dropped); the sessions here enable AIGP
+    ('aigp', 'len-'): DISCARD, ('aigp', 'tlv-overrun'): DISCARD, ('aigp', 'flags'): TAW,
     ('*', 'overrun-last'): TAW, ('*', 'header-truncated'): TAW, ('*', 'overrun-mid'): TAW,
     ('*', 'duplicate'): 'dup',
     ('mp_reach', 'nh-len'): RESET, ('mp_reach', 'nlri-truncated'): RESET, ('mp_reach', 'short'): RESET, ('mp_reach', 'duplicate'): RESET, ('mp_reach', 'flags'): RESET,
@@ -66,7 +68,7 @@ CELLS = sorted(TABLE, key=repr)
 OPTIONAL_ADD = {
     'next_hop': '10.0.0.9', 'med': 77, 'local_pref': 200, 'atomic': True, 'aggregator': [65010, '10.0.0.7'], 'communities': [[65000, 1], [65000, 2]], 'originator': '1.2.3.4',
     'cluster': ['1.1.1.1', '2.2.2.2'], 'ext': ['0002fde800000001', '0003fde80000004d'], 'large': [[1, 2, 3], [4, 5, 6]], 'as4_path': [[2, [4200000001, 65010]]],
-    'as4_aggregator': [4200000001, '10.0.0.7'],
+    'as4_aggregator': [4200000001, '10.0.0.7'], 'aigp': 1000,
 }  # fmt: skip
 
 
@@ -238,6 +240,10 @@ def build(plan: dict):
             else:
                 val = (65010).to_bytes(2 if k['asn4'] else 4, 'big') + bytes([10, 0, 0, 7])
             detail = f'{"2" if k["asn4"] else "4"}-byte AS encoding on a {"4" if k["asn4"] else "2"}-byte session'
+        elif corr == 'tlv-overrun':
+            # a well-formed AIGP TLV, then a second TLV whose declared length runs past the end of the attribute
+            val = val + bytes([rng.choice([1, 2, 9]), 0, rng.choice([12, 20, 200])]) + bytes(rng.randint(0, 255) for _ in range(rng.choice([0, 3, 8])))
+            detail = 'second TLV overruns the attribute'
         elif corr == 'overrun-count':
             val = val[:1] + bytes([val[1] + rng.choice([1, 2, 50])]) + val[2:] if len(val) > 1 else bytes([2, 3, 0, 1])
             detail = 'segment count beyond the attribute'
@@ -305,7 +311,7 @@ def execute(plan: dict) -> dict:
     ap = [tuple(f) for f in k['addpath']]
     conf = {
         'peer_ip': k['peer_ip'], 'local_ip': LOCAL, 'local_as': 65001, 'peer_as': k['peer_as'], 'router_id': LOCAL, 'hold': 180, 'families': fams, 'adj-rib-in': True,
-        'caps': {'asn4': k['asn4'], 'add-path': 'receive' if ap else 'disable'}, 'addpath_families': ap or None, 'api': {'processes': ['h1'], 'receive': ['parsed', 'update', 'notification']},
+        'caps': {'asn4': k['asn4'], 'add-path': 'receive' if ap else 'disable', 'aigp': True}, 'addpath_families': ap or None, 'api': {'processes': ['h1'], 'receive': ['parsed', 'update', 'notification']},
     }  # fmt: skip
     spec = {'asn': k['peer_as'], 'families': fams, 'asn4': k['asn4']}
     if ap:
@@ -391,7 +397,7 @@ def judge(w, plan, sp, ctx, h, good, bad, exp, stage, rib_keys, violations, prob
     lines = [ln for _, ln in h.lines if '"type": "update"' in ln and f'"peer": "{k["peer_ip"]}"' in ln]
     what = f'{exp["detail"]} ({_kd(k)}, {plan["carrier"]} NLRI)'
     cell = '/'.join(plan['cell'])
-    want_good = c02.expected_event(good[19:], ctx)
+    want_good = c02.expected_event(good[19:], ctx, keep_aigp=True)
     if not lines:
         raise RuntimeError('the well-formed first UPDATE was not reported')
     try:
@@ -466,7 +472,7 @@ def judge(w, plan, sp, ctx, h, good, bad, exp, stage, rib_keys, violations, prob
     # discard: exactly that attribute gone, everything else as the reference decodes the *well-formed* UPDATE
     want = jclone_attrs(want_good['attrs'])
     gone = {'origin': 'origin', 'med': 'med', 'local_pref': 'local_pref', 'atomic': 'atomic', 'aggregator': 'aggregator', 'communities': 'communities', 'originator': 'originator_id',
-            'cluster': 'cluster_list', 'ext': 'ext_communities', 'large': 'large_communities', 'as4_aggregator': None, 'as4_path': None}.get(exp['removed']) if exp['removed'] else None  # fmt: skip
+            'cluster': 'cluster_list', 'ext': 'ext_communities', 'large': 'large_communities', 'as4_aggregator': None, 'as4_path': None, 'aigp': 'aigp'}.get(exp['removed']) if exp['removed'] else None  # fmt: skip
     if exp['removed'] == 'as4_path':
         # discarding AS4_PATH leaves the AS_PATH as received (with AS_TRANS)
         d = R.decode_attributes(_attrs_without(bad, [R.A_AS4_PATH]), ctx)
